@@ -238,6 +238,20 @@ func (ex *Exec) verifyBody(fn *ssa.Function, fc *FuncContract) {
 			ex.vc.Assume(TTrue, g, "axiom")
 		}()
 	}
+	for _, u := range fc.Uses {
+		found := false
+		for _, l2 := range ex.specs.Lemmas {
+			if l2.Name == u {
+				found = true
+				g := ex.evalBool(l2.C.E, st, &Env{vars: map[string]TV{}, pkg: pkgOfFn(fn)})
+				ex.vc.Assume(TTrue, g, "lemma "+u)
+				ex.lemmasUsed[u] = true
+			}
+		}
+		if !found {
+			panic(unsupported("uses: unknown lemma " + u))
+		}
+	}
 	if !ex.safetyOnly || true {
 		for _, r := range fc.Requires {
 			g := ex.evalBool(r.E, st, nil)
@@ -315,8 +329,43 @@ func VerifyLemma(ld *Loader, specs *Specs, lm *Lemma) *FuncResult {
 			g := ex.evalBool(ax.E, ex.st, &Env{vars: map[string]TV{}})
 			ex.vc.Assume(TTrue, g, "axiom")
 		}
-		g := ex.evalBool(lm.C.E, ex.st, &Env{vars: map[string]TV{}})
-		ex.vc.Oblige("lemma", lm.Name, TTrue, g, fmt.Sprintf("%s:%d", shortPath(lm.File), lm.C.Line))
+		for _, u := range lm.Uses {
+			for _, l2 := range specs.Lemmas {
+				if l2.Name == u {
+					g := ex.evalBool(l2.C.E, ex.st, &Env{vars: map[string]TV{}})
+					ex.vc.Assume(TTrue, g, "lemma "+u)
+				}
+			}
+		}
+		env := &Env{vars: map[string]TV{}}
+		body := lm.C.E
+		// skolemise the outer universal quantifier: the goal becomes quantifier-free
+		for {
+			q, ok := body.(EQuant)
+			if !ok || !q.Forall {
+				break
+			}
+			for _, v := range q.Vars {
+				srt := specSort(v.Type, ex)
+				t := tInt
+				switch srt {
+				case SBool:
+					t = tBool
+				case SStr:
+					t = tString
+				case SF64, SReal:
+					t = tFloat
+				}
+				c := ex.vc.Fresh("sk."+v.Name, srt)
+				env.vars[v.Name] = TV{Sc{c}, t}
+				ex.modelSyms = append(ex.modelSyms, c.S)
+				ex.modelLbls = append(ex.modelLbls, v.Name)
+			}
+			body = q.Body
+		}
+		g := ex.evalBool(body, ex.st, env)
+		o := ex.vc.Oblige("lemma", lm.Name, TTrue, g, fmt.Sprintf("%s:%d", shortPath(lm.File), lm.C.Line))
+		o.ModelOf = ex.modelSyms
 	})
 	res.VC = ex.vc
 	if err != nil {
